@@ -112,7 +112,8 @@ func (f *localFileEntryFactory) Create(name string, state FileState) (FileEntry,
 	if name != filepath.Clean(name) {
 		return nil, ErrInvalidName
 	}
-	if strings.HasPrefix(name, "/") || strings.HasSuffix(name, "/") || strings.HasPrefix(name, "../") {
+	if name == "." || name == ".." ||
+		strings.HasPrefix(name, "/") || strings.HasSuffix(name, "/") || strings.HasPrefix(name, "../") {
 		return nil, ErrInvalidName
 	}
 	return newLocalFileEntry(state, name, f.GetRelativePath(name)), nil
